@@ -50,6 +50,10 @@ func (x *Exec) extCall(st *State, call *ast.CallExpr, fn *types.Func, args []*Te
 		return r
 	case "fmt.Printf", "fmt.Println", "fmt.Print", "fmt.Fprintf", "fmt.Fprintln", "fmt.Fprint":
 		return res()
+	case "time.Sleep":
+		// ghost: time slept since the cancellation context was last polled (reset by a contract's ghostset)
+		x.ghostSet(st, "napped", Add(x.ghostGet(st, "napped"), args[0]))
+		return nil
 	case "os.Exit":
 		st.kill()
 		return nil
@@ -62,8 +66,13 @@ func (x *Exec) extCall(st *State, call *ast.CallExpr, fn *types.Func, args []*Te
 			x.havocSliceElems(st, call.Args[0], args[0], call)
 		}
 		return nil
-	case "time.Sleep", "time.Now", "time.Since", "time.Duration.Seconds", "time.Duration.Milliseconds", "time.Time.Sub", "time.Time.Unix", "time.Time.UnixMilli":
+	case "time.Now", "time.Since", "time.Duration.Seconds", "time.Duration.Milliseconds", "time.Time.Sub", "time.Time.Unix", "time.Time.UnixMilli":
 		return res()
+	case "context.Context.Err":
+		// Err is non-nil exactly when the context is cancelled (Done closed)
+		r := res()
+		st.assume(Eq(Neq(r[0], ifaceNil), x.app("ctx.cancelled", SBool, args[0])))
+		return r
 	case "context.Cause":
 		// the cause is non-nil exactly when the context is cancelled (ghost predicate ctx.cancelled)
 		r := res()
